@@ -1,6 +1,7 @@
 import Holpy.C08.Main
 import Holpy.C08.ReachInfer
 import Holpy.C08.Term
+import Holpy.C08.Recovery
 /-
 C08 — property theorems about the model of `syntax/infertype.py: type_infer` (Model.lean, which
 includes the proposed fixes C08-1 and C08-2).  Vocabulary: Spec.lean (`Respects`, `FullyTyped`,
@@ -127,6 +128,23 @@ theorem type_infer_loop_terminates (ctx : Ctx) (fuel : Nat) (t t' : Skel) (T : T
   split
   · intro hc; cases hc
   · rw [hτ]; intro hc; cases hc
+
+/-- `erasure_recovery_partial`: if `t` is well typed, fully annotated without internal variables, and the
+context declares its variables, then from the erasure that drops only the variable types (constant and
+binder types kept) `type_infer` returns exactly `t`.  Partial: for the deeper erasure levels
+"recovers `t` or reports under-determined" (principality) is not proved; the harness checks it against
+a reference unifier. -/
+theorem erasure_recovery_partial (ctx : Ctx) (t : Skel) (T : Ty) (hf : t.FullyTyped) (hd : t.Declared ctx)
+    (hc : checkedGetType t [] = some T) :
+    ∃ N, ∀ fuel, N ≤ fuel → typeInfer ctx fuel true t.eraseVars = .ok t :=
+  typeInfer_recover ctx t T hf hd hc
+
+/-- non-vacuity: the hypotheses hold for the example term with `f` and `a` declared -/
+example : Ex.result.FullyTyped ∧ Ex.result.Declared ⟨[("a", Ex.nat), ("f", tfun Ex.nat Ex.nat)], [], []⟩ ∧
+    checkedGetType Ex.result [] = some Ex.bool := by
+  refine ⟨?_, ?_, by decide +kernel⟩
+  · simp [Ex.result, Skel.FullyTyped, Ty.noInternal, Ex.nat, Ex.bool, Ex.eqT, Ty.internals, Ty.internalsL]
+  · simp [Ex.result, Skel.Declared, List.lookup, Ex.nat]
 
 /-- the fixed model rejects the three-variable cycle `x y ∧ y z ∧ z x` that escaped the original occurs check -/
 example : typeInfer Ex.ctx 20 true
